@@ -41,6 +41,11 @@ inductive Setter where
   | year (v : Option UInt32)
   deriving Repr, DecidableEq, Inhabited
 
+/-- the path a call gives the track, if it is `set_relative_path` -/
+def Setter.newPath : Setter → Option Bytes
+  | .relativePath p => some p
+  | _ => none
+
 /-- `index < 0 || (unsigned) index >= size` → `std::out_of_range` -/
 def slotIndex (i : UInt32) (size : Nat) : Res Nat :=
   if s32 i < 0 ∨ size ≤ i.toNat then .throw .out_of_range else .ok i.toNat
@@ -186,6 +191,12 @@ def Db.update (ops : FOps) (s : Schema) (db : Db) (id : Nat) (x : Snap) : Db × 
   | .throw e => (db, .throw e)
   | .ub u => (db, .ub u)
 
+/-- the call would give the track a path another track has -/
+def Db.clash (db : Db) (id : Nat) (σ : Setter) : Bool :=
+  match σ.newPath with
+  | some p => db.pathTaken id p
+  | none => false
+
 /-- one `set_*` call on track `id` -/
 def Db.set (ops : FOps) (db : Db) (id : Nat) (σ : Setter) : Db × Res Unit :=
   match db.get id with
@@ -193,10 +204,7 @@ def Db.set (ops : FOps) (db : Db) (id : Nat) (σ : Setter) : Db × Res Unit :=
   | some r =>
     match applySetter ops σ r with
     | .ok r' =>
-      let clash := match σ with
-        | .relativePath p => db.pathTaken id p
-        | _ => false
-      if clash then (db, .throw .sqlite_error) else (db.put id r', .ok ())
+      if db.clash id σ then (db, .throw .sqlite_error) else (db.put id r', .ok ())
     | .throw e => (db, .throw e)
     | .ub u => (db, .ub u)
 
